@@ -314,4 +314,22 @@ def parEngine (c i : List String) : Option Res := do
     | _ => none
   | _ => none
 
+/-- `parstress`: free-running real threads; only the final outcome is observed -/
+def parstressEngine (c i : List String) : Option Res := do
+  match splitAt "|" c with
+  | famT :: p1 :: p2 :: p3 :: p4 :: _ =>
+    let (fam, _) ← parseFam famT
+    let cfg ← parseSCfg [p1, p2, p3, p4]
+    match splitAt "|" i with
+    | [[ex, bv, lb, ub, _explored, _polls], solT] =>
+      let lb ← int? lb; let ub ← int? ub
+      let value := bv.toInt?
+      let sol := if solT == ["none"] then none else if solT == ["e"] then some [] else (ints? solT).map parseDecs
+      let pf := phiSolver fam (cfg.kind == 2) cfg.primal (ex == "0") (ex == "1") value lb ub sol
+      let pf := pf.map (fun s => if s.startsWith "C01:" then "C03:" ++ (s.drop 4).toString else s)
+      pure { agree := true, phi := pf.isEmpty, model := "(phi only)", note := failNote pf }
+    | [["panic"]] => pure { agree := true, phi := false, model := "-", note := "F:C04 [C04:the parallel solver panics in a free-running stress run]" }
+    | _ => none
+  | _ => none
+
 end Ddo.Engines
